@@ -156,6 +156,8 @@ type vGen struct {
 	nT, nTab int
 	text     bool
 	chain    []int // two tables, the second of which expands an address the first one produced
+	split    bool  // the two tables of the chain sit in different scopes: the first in the global
+	// modify block, the second in the modify block of every source scope
 }
 
 func vB(s string) string { return cBytes([]byte(s)) }
@@ -178,9 +180,18 @@ func vNN(l []config.Node) []config.Node {
 	return l
 }
 
-func (g *vGen) modify() (config.Node, string) {
+func (g *vGen) modify() (config.Node, string) { return g.modifyAt(2) }
+
+// modifyAt: level 0 = pipeline root, 1 = source scope, 2 = anything below
+func (g *vGen) modifyAt(level int) (config.Node, string) {
 	var ch []config.Node
 	var ids []int
+	if g.chain != nil && g.split && level < 2 {
+		tab := g.chain[level]
+		ch = append(ch, config.Node{Name: "replace_rcpt", Args: []string{fmt.Sprintf("&mt%d", tab)}})
+		ids = append(ids, 10+tab)
+		return config.Node{Name: "modify", Children: ch}, vNodeTerm("DModify", nil, ids, true, nil)
+	}
 	if g.chain != nil && g.r.chance(60) {
 		for _, tab := range g.chain {
 			ch = append(ch, config.Node{Name: "replace_rcpt", Args: []string{fmt.Sprintf("&mt%d", tab)}})
@@ -289,8 +300,8 @@ func (g *vGen) srcBody(depth int) ([]config.Node, []string) {
 	var ns []config.Node
 	var ts []string
 	add := func(n config.Node, t string) { ns = append(ns, n); ts = append(ts, t) }
-	if r.chance(25) {
-		add(g.modify())
+	if drawn := r.chance(25); drawn || g.split {
+		add(g.modifyAt(1))
 	}
 	if r.chance(35) { // no destination rules: handling directives directly
 		n2, t2 := g.rcptBody(depth)
@@ -342,8 +353,8 @@ func (g *vGen) root(depth int) ([]config.Node, []string) {
 	var ns []config.Node
 	var ts []string
 	add := func(n config.Node, t string) { ns = append(ns, n); ts = append(ts, t) }
-	if r.chance(20) {
-		add(g.modify())
+	if drawn := r.chance(20); drawn || g.split {
+		add(g.modifyAt(0))
 	}
 	if r.chance(10) {
 		add(config.Node{Name: "dmarc", Args: []string{"no"}}, vNodeTerm("DDmarc", nil, nil, false, nil))
@@ -499,6 +510,15 @@ func TestVerif_C04(t *testing.T) {
 			mts[j].m["alice@corp.example"] = []string{"alice@sub.example.org", "list@corp.example"}
 			g.chain = []int{i, j}
 			stats["chained-expansion"]++
+		}
+		if ci%7 == 3 && chainKey == "" {
+			// expansions chained across scopes (chosen without drawing): the global modify block turns one
+			// address into several, the source scope's block expands the first (not the last) of those
+			chainKey = "list@example.org"
+			mts[0].m[chainKey] = []string{"alice@corp.example", "bob@example.org", "postmaster@sub.example.org"}
+			mts[1].m["alice@corp.example"] = []string{"alice@sub.example.org", "list@corp.example"}
+			g.chain, g.split = []int{0, 1}, true
+			stats["expansion-chained-across-scopes"]++
 		}
 		depth := r.intn(3)
 		nodes, terms := g.root(depth)
